@@ -30,14 +30,23 @@ Lemma nth_error_In' {A} (l : list A) n x : nth_error l n = Some x -> In x l.
 Proof. apply nth_error_In. Qed.
 
 (* ---------- the invariant ---------- *)
-Definition spec_enabled (s : st) (id : Z) : bool := wanted (servers s) id && negb (dis_in (servers s) id).
+Definition spec_enabled (s : st) (id : Z) : bool :=
+  cexists s && wanted (servers s) id && negb (dis_in (servers s) id).
 
 Definition inc_ok (sv : list (Z * bool)) (i : inc) : Prop :=
   (live i = true -> wanted sv (iid i) = true /\ disabled i = dis_in sv (iid i))
   /\ (forall g, In g (gens i) -> gdone g = false -> live i = true /\ disabled i = false /\ hascancel i = true)
   /\ (hascancel i = false -> forall g, In g (gens i) -> gdone g = true).
 
-Definition inv (s : st) : Prop := Forall (inc_ok (servers s)) (incs s).
+(* the endpoint belongs to the ClusterInfo object the manager holds now *)
+Definition cur (s : st) (i : inc) : bool := cexists s && (icl i =? cgen s).
+
+Definition inc_inv (s : st) (i : inc) : Prop :=
+  icl i <= cgen s
+  /\ (cur s i = true -> inc_ok (servers s) i)
+  /\ (cur s i = false -> forall g, In g (gens i) -> gdone g = true).
+
+Definition inv (s : st) : Prop := Forall (inc_inv s) (incs s).
 
 Lemma inv_init : inv init.
 Proof. constructor. Qed.
@@ -46,13 +55,13 @@ Proof. constructor. Qed.
 Definition keeps (f : inc -> gen -> inc * gen * list event) : Prop :=
   forall i g i' g' ev, f i g = (i', g', ev) ->
     iid i' = iid i /\ live i' = live i /\ disabled i' = disabled i /\ hascancel i' = hascancel i
-    /\ gens i' = gens i /\ gdone g' = gdone g.
+    /\ gens i' = gens i /\ gdone g' = gdone g /\ icl i' = icl i.
 
 Lemma inc_ok_on_gen sv f i g i' g' ev gi :
   keeps f -> inc_ok sv i -> nth_error (gens i) gi = Some g -> f i g = (i', g', ev) ->
   inc_ok sv (set_gens i' (upd_nth gi (fun _ => g') (gens i'))).
 Proof.
-  intros Hk [H1 [H2 H3]] Hg Hf. destruct (Hk _ _ _ _ _ Hf) as [Eid [Elive [Edis [Ehc [Egens Egd]]]]].
+  intros Hk [H1 [H2 H3]] Hg Hf. destruct (Hk _ _ _ _ _ Hf) as [Eid [Elive [Edis [Ehc [Egens [Egd _]]]]]].
   unfold inc_ok; simpl. rewrite Eid, Elive, Edis, Ehc, Egens.
   split; [exact H1|]. split.
   - intros x Hx Hxd. destruct (In_upd_nth _ _ _ _ Hx) as [Hin|[y [Hy ->]]].
@@ -63,21 +72,35 @@ Proof.
     + rewrite Hg in Hy; inversion Hy; subst y. rewrite Egd. apply (H3 Hhc g). eapply nth_error_In; exact Hg.
 Qed.
 
-Lemma on_gen_servers k gi f s : servers (fst (on_gen k gi f s)) = servers s.
+Lemma on_gen_frame k gi f s :
+  servers (fst (on_gen k gi f s)) = servers s /\ cgen (fst (on_gen k gi f s)) = cgen s
+  /\ cexists (fst (on_gen k gi f s)) = cexists s.
 Proof.
-  unfold on_gen. destruct (nth_error (incs s) k) as [i|]; [|reflexivity].
-  destruct (nth_error (gens i) gi) as [g|]; [|reflexivity].
-  destruct (f i g) as [[i' g'] ev]. reflexivity.
+  unfold on_gen. destruct (nth_error (incs s) k) as [i|]; [|repeat split].
+  destruct (nth_error (gens i) gi) as [g|]; [|repeat split].
+  destruct (f i g) as [[i' g'] ev]. repeat split.
 Qed.
+
+Lemma inc_inv_frame s s' i :
+  servers s' = servers s -> cgen s' = cgen s -> cexists s' = cexists s -> inc_inv s i -> inc_inv s' i.
+Proof. unfold inc_inv, cur. intros -> -> ->. tauto. Qed.
 
 Lemma inv_on_gen k gi f s : keeps f -> inv s -> inv (fst (on_gen k gi f s)).
 Proof.
-  intros Hk Hinv. unfold inv. rewrite on_gen_servers. unfold on_gen.
-  destruct (nth_error (incs s) k) as [i|] eqn:Ei; [|exact Hinv].
-  destruct (nth_error (gens i) gi) as [g|] eqn:Eg; [|exact Hinv].
-  destruct (f i g) as [[i' g'] ev] eqn:Ef. simpl.
-  apply Forall_upd_nth; [exact Hinv|]. intros x Hx Hok. rewrite Ei in Hx; inversion Hx; subst x.
-  eapply inc_ok_on_gen; eauto.
+  intros Hk Hinv. destruct (on_gen_frame k gi f s) as [F1 [F2 F3]].
+  assert (Hgoal : Forall (inc_inv s) (incs (fst (on_gen k gi f s)))).
+  { unfold on_gen.
+    destruct (nth_error (incs s) k) as [i|] eqn:Ei; [|exact Hinv].
+    destruct (nth_error (gens i) gi) as [g|] eqn:Eg; [|exact Hinv].
+    destruct (f i g) as [[i' g'] ev] eqn:Ef. simpl.
+    apply Forall_upd_nth; [exact Hinv|]. intros x Hx [Hle [Hc Hn]]. rewrite Ei in Hx; inversion Hx; subst x.
+    destruct (Hk _ _ _ _ _ Ef) as [Eid [Elive [Edis [Ehc [Egens [Egd Ecl]]]]]].
+    unfold inc_inv, cur in *; simpl. rewrite Ecl. split; [exact Hle|]. split.
+    - intros Hcur. eapply inc_ok_on_gen; eauto.
+    - intros Hcur x Hx'. rewrite Egens in Hx'. destruct (In_upd_nth _ _ _ _ Hx') as [Hin|[y [Hy ->]]].
+      + exact (Hn Hcur x Hin).
+      + rewrite Eg in Hy; inversion Hy; subst y. rewrite Egd. apply (Hn Hcur g). eapply nth_error_In; exact Eg. }
+  unfold inv. eapply Forall_impl; [|exact Hgoal]. intros i Hi. eapply inc_inv_frame; eauto.
 Qed.
 
 Lemma keeps_timer : keeps (fun i g => (i, timer_fire g, [])).
@@ -118,9 +141,9 @@ Definition mid_ok (sv : list (Z * bool)) (i : inc) : Prop :=
 Lemma cancel_all_done l g : In g (cancel_all l) -> gdone g = true.
 Proof. unfold cancel_all. rewrite in_map_iff. intros [x [<- _]]. reflexivity. Qed.
 
-Lemma sync_delete_mid sv0 sv i : inc_ok sv0 i -> mid_ok sv (sync_delete sv i).
+Lemma sync_delete_mid c sv0 sv i : icl i = c -> inc_ok sv0 i -> mid_ok sv (sync_delete c sv i).
 Proof.
-  intros [H1 [H2 H3]]. unfold sync_delete.
+  intros Hc [H1 [H2 H3]]. unfold sync_delete. rewrite Hc, Z.eqb_refl. simpl.
   destruct (live i) eqn:El; simpl.
   - destruct (wanted sv (iid i)) eqn:Ew; simpl.
     + unfold mid_ok. rewrite El. split; [intros _; exact Ew|]. split; [exact H2|exact H3].
@@ -128,6 +151,21 @@ Proof.
       * intros g Hg Hd. rewrite (cancel_all_done _ _ Hg) in Hd. discriminate.
       * intros _ g Hg. exact (cancel_all_done _ _ Hg).
   - unfold mid_ok. rewrite El. split; [discriminate|]. split; [exact H2|exact H3].
+Qed.
+
+Lemma sync_delete_icl c sv i : icl (sync_delete c sv i) = icl i.
+Proof. unfold sync_delete. destruct ((icl i =? c) && live i && negb (wanted sv (iid i))); reflexivity. Qed.
+
+Lemma ensure_icl i : icl (ensure i) = icl i.
+Proof. unfold ensure. destruct (disabled i && hascancel i); simpl; match goal with |- context [if ?c then _ else _] => destruct c end; reflexivity. Qed.
+
+Lemma sync_update_icl c sv i : icl (sync_update c sv i) = icl i.
+Proof. unfold sync_update. destruct ((icl i =? c) && live i); [rewrite ensure_icl; reflexivity|reflexivity]. Qed.
+
+Lemma sync_other c sv i : icl i <> c -> sync_update c sv (sync_delete c sv i) = i.
+Proof.
+  intros H. assert (E : icl i =? c = false) by lia. unfold sync_delete. rewrite E. simpl.
+  unfold sync_update. rewrite E. reflexivity.
 Qed.
 
 Lemma ensure_ok sv i :
@@ -138,27 +176,23 @@ Lemma ensure_ok sv i :
 Proof.
   intros El Ew Ed H2 H3. unfold ensure.
   destruct (disabled i) eqn:Edis, (hascancel i) eqn:Ehc; simpl; rewrite ?Edis, ?Ehc; simpl.
-  - (* disabled, probing: cancel *)
-    unfold inc_ok; simpl. split; [intros _; split; [exact Ew|exact Ed]|]. split.
+  - unfold inc_ok; simpl. split; [intros _; split; [exact Ew|exact Ed]|]. split.
     + intros g Hg Hd. rewrite (cancel_all_done _ _ Hg) in Hd. discriminate.
     + intros _ g Hg. exact (cancel_all_done _ _ Hg).
-  - (* disabled, not probing *)
-    unfold inc_ok. rewrite ?El, ?Edis, ?Ehc. split; [intros _; split; [exact Ew|exact Ed]|]. split.
+  - unfold inc_ok. rewrite ?El, ?Edis, ?Ehc. split; [intros _; split; [exact Ew|exact Ed]|]. split.
     + intros g Hg Hd. rewrite (H3 eq_refl g Hg) in Hd. discriminate.
     + intros _. exact (H3 eq_refl).
-  - (* enabled, probing *)
-    unfold inc_ok. rewrite ?El, ?Edis, ?Ehc. split; [intros _; split; [exact Ew|exact Ed]|]. split.
+  - unfold inc_ok. rewrite ?El, ?Edis, ?Ehc. split; [intros _; split; [exact Ew|exact Ed]|]. split.
     + intros g Hg Hd. repeat split; reflexivity.
     + discriminate.
-  - (* enabled, not probing: start a generation *)
-    unfold inc_ok; simpl. rewrite ?El, ?Edis. split; [intros _; split; [exact Ew|exact Ed]|]. split.
+  - unfold inc_ok; simpl. rewrite ?El, ?Edis. split; [intros _; split; [exact Ew|exact Ed]|]. split.
     + intros g Hg Hd. repeat split; reflexivity.
     + discriminate.
 Qed.
 
-Lemma sync_update_ok sv i : mid_ok sv i -> inc_ok sv (sync_update sv i).
+Lemma sync_update_ok c sv i : icl i = c -> mid_ok sv i -> inc_ok sv (sync_update c sv i).
 Proof.
-  intros [H1 [H2 H3]]. unfold sync_update. destruct (live i) eqn:El.
+  intros Hc [H1 [H2 H3]]. unfold sync_update. rewrite Hc, Z.eqb_refl. simpl. destruct (live i) eqn:El.
   - apply ensure_ok; simpl; try reflexivity; try exact El.
     + exact (H1 eq_refl).
     + intros g Hg Hd. exact (proj2 (proj2 (H2 g Hg Hd))).
@@ -173,30 +207,57 @@ Proof.
   exists p. split; [exact Hp|apply Z.eqb_refl].
 Qed.
 
-Lemma new_inc_ok sv id : wanted sv id = true -> inc_ok sv (new_inc id (dis_in sv id)).
+Lemma new_inc_ok c sv id : wanted sv id = true -> inc_ok sv (new_inc c id (dis_in sv id)) /\ icl (new_inc c id (dis_in sv id)) = c.
 Proof.
-  intros Hw. unfold new_inc. apply ensure_ok; simpl; try reflexivity; try exact Hw.
+  intros Hw. unfold new_inc. split; [|rewrite ensure_icl; reflexivity].
+  apply ensure_ok; simpl; try reflexivity; try exact Hw.
   - intros g [].
   - intros _ g [].
 Qed.
 
-Lemma sync_add_ok sv : forall todo l,
-  (forall id, In id todo -> wanted sv id = true) -> Forall (inc_ok sv) l -> Forall (inc_ok sv) (sync_add sv todo l).
+Lemma sync_add_ok (P : inc -> Prop) c sv : forall todo l,
+  (forall id, In id todo -> wanted sv id = true) ->
+  (forall i, inc_ok sv i -> icl i = c -> P i) ->
+  Forall P l -> Forall P (sync_add c sv todo l).
 Proof.
-  induction todo as [|id r IH]; intros l Hw Hl; simpl; [exact Hl|].
-  destruct (has_live l id).
-  - apply IH; [intros x Hx; apply Hw; right; exact Hx|exact Hl].
-  - apply IH; [intros x Hx; apply Hw; right; exact Hx|].
+  induction todo as [|id r IH]; intros l Hw HP Hl; simpl; [exact Hl|].
+  destruct (has_live l c id).
+  - apply IH; [intros x Hx; apply Hw; right; exact Hx|exact HP|exact Hl].
+  - apply IH; [intros x Hx; apply Hw; right; exact Hx|exact HP|].
     apply Forall_app. split; [exact Hl|]. constructor; [|constructor].
-    apply new_inc_ok. apply Hw. left; reflexivity.
+    destruct (new_inc_ok c sv id (Hw id (or_introl eq_refl))) as [H1 H2]. apply HP; assumption.
 Qed.
 
 Lemma inv_sync sv subs s : inv s -> inv (do_sync sv subs s).
 Proof.
-  intros Hinv. unfold inv, do_sync; simpl.
-  apply sync_add_ok; [intros id Hid; apply wanted_in; exact Hid|].
-  rewrite Forall_map. rewrite Forall_map.
-  eapply Forall_impl; [|exact Hinv]. intros i Hi. apply sync_update_ok. eapply sync_delete_mid. exact Hi.
+  intros Hinv. unfold inv, do_sync.
+  set (c := if cexists s then cgen s else cgen s + 1).
+  cbn [incs]. apply sync_add_ok; [intros id Hid; apply wanted_in; exact Hid| |].
+  - intros i Hok Hc. unfold inc_inv, cur; simpl. rewrite Hc, Z.eqb_refl. split; [lia|]. split; [intros _; exact Hok|discriminate].
+  - rewrite Forall_map. rewrite Forall_map.
+    eapply Forall_impl; [|exact Hinv]. intros i [Hle [Hc Hn]].
+    unfold inc_inv, cur in *; simpl. rewrite sync_update_icl, sync_delete_icl.
+    destruct (icl i =? c) eqn:E.
+    + (* an endpoint of the object being synced: only possible when the cluster exists *)
+      assert (Hex : cexists s = true /\ icl i = cgen s).
+      { subst c. destruct (cexists s); [split; [reflexivity|lia]|lia]. }
+      destruct Hex as [Hex Hg]. assert (Hic : icl i = c) by lia.
+      split; [lia|]. split; [|discriminate].
+      intros _. apply sync_update_ok; [rewrite sync_delete_icl; exact Hic|].
+      eapply sync_delete_mid; [exact Hic|]. apply Hc. rewrite Hex, Hg, Z.eqb_refl. reflexivity.
+    + rewrite (sync_other c sv i) by lia. split; [subst c; destruct (cexists s); lia|]. split; [discriminate|].
+      intros _. apply Hn. destruct (cexists s) eqn:Ex; [|reflexivity].
+      subst c. simpl. assert (icl i =? cgen s = false) by lia. rewrite H. reflexivity.
+Qed.
+
+Lemma inv_delete s : inv s -> inv (do_delete s).
+Proof.
+  intros Hinv. unfold do_delete. destruct (cexists s) eqn:Ex; [|exact Hinv].
+  unfold inv; cbn [incs]. rewrite Forall_map. eapply Forall_impl; [|exact Hinv].
+  intros i [Hle [Hc Hn]]. unfold inc_inv, cur in *; simpl.
+  destruct (icl i =? cgen s) eqn:E; simpl.
+  - split; [exact Hle|]. split; [discriminate|]. intros _ g Hg. exact (cancel_all_done _ _ Hg).
+  - split; [exact Hle|]. split; [discriminate|]. intros _. apply Hn. rewrite ?Ex, ?E. reflexivity.
 Qed.
 
 Lemma inv_micro rc s m : inv s -> inv (fst (micro rc s m)).
@@ -206,15 +267,23 @@ Proof.
   - apply inv_on_gen; [apply keeps_timer|exact Hinv].
   - apply inv_on_gen; [apply keeps_ticker|exact Hinv].
   - pose proof (inv_on_gen k gi (worker_step rc b (nextseq s)) s (keeps_worker rc b (nextseq s)) Hinv) as H.
-    pose proof (on_gen_servers k gi (worker_step rc b (nextseq s)) s) as Hs.
     destruct (on_gen k gi (worker_step rc b (nextseq s)) s) as [s' ev]. simpl in *.
-    unfold inv in *; simpl. exact H.
+    unfold inv in *; simpl. eapply Forall_impl; [|exact H]. intros i Hi. eapply inc_inv_frame; [| | |exact Hi]; reflexivity.
   - apply inv_on_gen; [apply keeps_probe|exact Hinv].
   - unfold inv; simpl. rewrite Forall_map. eapply Forall_impl; [|exact Hinv].
-    intros i Hi. destruct (live i && (iid i =? id)); [|exact Hi]. exact Hi.
-  - destruct (upstreams_of s p); exact Hinv.
-  - destruct (zlook slot (pickers s)) as [ups|]; [|exact Hinv]. destruct (pop (incs s) ups choice); exact Hinv.
-  - destruct (upstreams_of s p) as [ups|]; [|exact Hinv]. destruct (pop (incs s) ups choice); exact Hinv.
+    intros i Hi. destruct (live i && (iid i =? id) && (icl i =? cgen s) && cexists s); [|eapply inc_inv_frame; [| | |exact Hi]; reflexivity].
+    destruct Hi as [Hle [Hc Hn]]. unfold inc_inv, cur in *; simpl. tauto.
+  - destruct (cexists s) eqn:Ex; simpl; [|exact Hinv]. destruct (upstreams_of s p); simpl;
+      (unfold inv; simpl; eapply Forall_impl; [|exact Hinv]; intros i Hi; eapply inc_inv_frame; [| | |exact Hi];
+       simpl; try reflexivity; symmetry; exact Ex).
+  - destruct (zlook slot (pickers s)) as [[c ups]|]; [|exact Hinv]. destruct (pop s c ups choice); exact Hinv.
+  - destruct (cexists s); simpl; [|exact Hinv].
+    destruct (upstreams_of s p) as [ups|]; [|exact Hinv]. destruct (pop s (cgen s) ups choice); exact Hinv.
+  - apply inv_delete; exact Hinv.
+  - destruct (cexists s) eqn:Ex; simpl; [|exact Hinv].
+    unfold inv; simpl. eapply Forall_impl; [|exact Hinv]. intros i Hi. eapply inc_inv_frame; [| | |exact Hi];
+      simpl; try reflexivity; symmetry; exact Ex.
+  - destruct (zlook slot (handles s)) as [c|]; [|exact Hinv]. destruct (pop s c (live_ids (incs s) c) choice); exact Hinv.
 Qed.
 
 Lemma inv_run rc : forall ms s, inv s -> inv (run_micro rc s ms).
@@ -226,40 +295,55 @@ Lemma inv_reach rc ms : inv (run_micro rc init ms).
 Proof. apply inv_run. exact inv_init. Qed.
 
 (* ---------- picking ---------- *)
-Lemma find_live_spec l id i : find_live l id = Some i -> In i l /\ live i = true /\ iid i = id.
+Lemma find_live_spec l c id i : find_live l c id = Some i -> In i l /\ live i = true /\ iid i = id /\ icl i = c.
 Proof.
   unfold find_live. intros H. destruct (find_some _ _ H) as [Hin Hb].
-  apply andb_prop in Hb. destruct Hb as [Hl He]. apply Z.eqb_eq in He. tauto.
+  apply andb_prop in Hb. destruct Hb as [Hb Hc]. apply andb_prop in Hb. destruct Hb as [Hl He].
+  repeat split; try assumption; lia.
 Qed.
 
-Lemma ready_of_In l ups id : In id (ready_of l ups) ->
-  In id ups /\ exists i, find_live l id = Some i /\ disabled i = false /\ healthy i = true.
+Lemma ready_of_In s c ups id : In id (ready_of s c ups) ->
+  In id ups /\ cexists s = true /\ c = cgen s
+  /\ exists i, find_live (incs s) c id = Some i /\ disabled i = false /\ healthy i = true.
 Proof.
   unfold ready_of. rewrite filter_In. intros [Hin Hb]. split; [exact Hin|].
-  destruct (find_live l id) as [i|]; [|discriminate]. exists i. split; [reflexivity|].
-  unfold is_ready in Hb. apply andb_prop in Hb. destruct Hb as [Hd Hh].
+  destruct (find_live (incs s) c id) as [i|]; [|discriminate].
+  apply andb_prop in Hb. destruct Hb as [Hs Hr]. unfold stopped in Hs.
+  destruct (cexists s) eqn:Ex; [|discriminate]. simpl in Hs.
+  destruct (c =? cgen s) eqn:Ec; [|discriminate].
+  split; [reflexivity|]. split; [lia|]. exists i. split; [reflexivity|].
+  unfold is_ready in Hr. apply andb_prop in Hr. destruct Hr as [Hd Hh].
   split; [destruct (disabled i); [discriminate|reflexivity]|exact Hh].
 Qed.
 
-Lemma pop_In l ups choice id : pop l ups choice = Some id -> In id (ready_of l ups).
+Lemma pop_In s c ups choice id : pop s c ups choice = Some id -> In id (ready_of s c ups).
 Proof.
-  unfold pop. destruct (ready_of l ups) as [|x r] eqn:E; [discriminate|]. intros H. eapply nth_error_In. exact H.
+  unfold pop. destruct (ready_of s c ups) as [|x r] eqn:E; [discriminate|]. intros H. eapply nth_error_In. exact H.
 Qed.
 
-Lemma pop_none l ups choice : pop l ups choice = None <-> ready_of l ups = [].
+Lemma pop_none s c ups choice : pop s c ups choice = None <-> ready_of s c ups = [].
 Proof.
-  unfold pop. destruct (ready_of l ups) as [|x r] eqn:E; [tauto|]. split; [|discriminate].
+  unfold pop. destruct (ready_of s c ups) as [|x r] eqn:E; [tauto|]. split; [|discriminate].
   intros H. exfalso. apply nth_error_None in H.
   pose proof (Nat.mod_upper_bound choice (List.length (x :: r))) as Hb. simpl in *. lia.
 Qed.
 
+(* an endpoint of a stopped ClusterInfo is never ready, whatever its frozen flags *)
+Lemma ready_of_stopped s c ups : stopped s c = true -> ready_of s c ups = [].
+Proof.
+  intros H. unfold ready_of. induction ups as [|x r IH]; simpl; [reflexivity|].
+  destruct (find_live (incs s) c x) as [i|]; [|exact IH].
+  replace (negb (stopped s c) && is_ready i) with false by (rewrite H; reflexivity). exact IH.
+Qed.
+
 Lemma live_enabled s id i :
-  inv s -> find_live (incs s) id = Some i -> disabled i = false ->
+  inv s -> cexists s = true -> find_live (incs s) (cgen s) id = Some i -> disabled i = false ->
   wanted (servers s) id = true /\ dis_in (servers s) id = false.
 Proof.
-  intros Hinv Hf Hd. destruct (find_live_spec _ _ _ Hf) as [Hin [Hl <-]].
-  unfold inv in Hinv. rewrite Forall_forall in Hinv. destruct (Hinv i Hin) as [H1 _].
-  destruct (H1 Hl) as [Hw He]. split; [exact Hw|congruence].
+  intros Hinv Hex Hf Hd. destruct (find_live_spec _ _ _ _ Hf) as [Hin [Hl [<- Hc]]].
+  unfold inv in Hinv. rewrite Forall_forall in Hinv. destruct (Hinv i Hin) as [_ [H1 _]].
+  assert (Hcur : cur s i = true) by (unfold cur; rewrite Hex, Hc, Z.eqb_refl; reflexivity).
+  destruct (H1 Hcur) as [Hok _]. destruct (Hok Hl) as [Hw He]. split; [exact Hw|congruence].
 Qed.
 
 Definition subset_given (s : st) (p : Z) (id : Z) : Prop :=
@@ -272,38 +356,62 @@ Proof.
   inversion H; subst. exact Hin.
 Qed.
 
-(* a forwarded request: endpoint in the current server list, in the policy's subset when given, enabled, healthy *)
+(* whatever Pop returns for a picker of ClusterInfo object c, in a reachable state: the cluster exists,
+   c is the object the manager holds, the endpoint is in the server list of the last sync, enabled, healthy *)
+Lemma pop_ready_sound rc ms c ups choice id :
+  let s := run_micro rc init ms in
+  pop s c ups choice = Some id ->
+  In id ups /\ cexists s = true /\ c = cgen s
+  /\ wanted (servers s) id = true /\ dis_in (servers s) id = false
+  /\ exists i, find_live (incs s) (cgen s) id = Some i /\ disabled i = false /\ healthy i = true.
+Proof.
+  intros s Hp. destruct (ready_of_In _ _ _ _ (pop_In _ _ _ _ _ Hp)) as [Hin [Hex [Hc [i [Hf [Hd Hh]]]]]].
+  subst c. destruct (live_enabled s id i (inv_reach rc ms) Hex Hf Hd) as [Hw Hdi].
+  repeat split; try assumption. exists i. tauto.
+Qed.
+
 Lemma request_sound rc ms p choice id :
   let s := run_micro rc init ms in
   In (EContact id) (snd (micro rc s (MRequest p choice))) ->
-  wanted (servers s) id = true /\ dis_in (servers s) id = false /\ subset_given s p id
-  /\ exists i, find_live (incs s) id = Some i /\ disabled i = false /\ healthy i = true.
+  cexists s = true /\ wanted (servers s) id = true /\ dis_in (servers s) id = false /\ subset_given s p id
+  /\ exists i, find_live (incs s) (cgen s) id = Some i /\ disabled i = false /\ healthy i = true.
 Proof.
-  intros s H. simpl in H. destruct (upstreams_of s p) as [ups|] eqn:Eu; [|simpl in H; intuition discriminate].
-  destruct (pop (incs s) ups choice) as [x|] eqn:Ep; simpl in H.
+  intros s H. simpl in H. destruct (cexists s) eqn:Ex; simpl in H; [|intuition discriminate].
+  destruct (upstreams_of s p) as [ups|] eqn:Eu; [|simpl in H; intuition discriminate].
+  destruct (pop s (cgen s) ups choice) as [x|] eqn:Ep; simpl in H.
   - destruct H as [H|[H|[]]]; [discriminate|]. inversion H; subst x.
-    destruct (ready_of_In _ _ _ (pop_In _ _ _ _ Ep)) as [Hin [i [Hf [Hd Hh]]]].
-    destruct (live_enabled s id i (inv_reach rc ms) Hf Hd) as [Hw Hdi].
-    split; [exact Hw|]. split; [exact Hdi|]. split; [eapply upstreams_subset; eauto|].
-    exists i. tauto.
+    destruct (pop_ready_sound rc ms _ _ _ _ Ep) as [Hin [_ [_ [Hw [Hdi Hi]]]]].
+    split; [reflexivity|]. split; [exact Hw|]. split; [exact Hdi|]. split; [eapply upstreams_subset; eauto|exact Hi].
   - destruct H as [H|[H|[]]]; discriminate.
 Qed.
 
-(* Pop on a (possibly stale) picker: endpoint among the upstreams captured by MatchAttributes, in the
-   current server list, enabled, healthy *)
 Lemma pop_sound rc ms slot choice id :
   let s := run_micro rc init ms in
   In (EPick id) (snd (micro rc s (MPop slot choice))) ->
-  exists ups, zlook slot (pickers s) = Some ups /\ In id ups
+  exists c ups, zlook slot (pickers s) = Some (c, ups) /\ In id ups
+  /\ cexists s = true /\ c = cgen s
   /\ wanted (servers s) id = true /\ dis_in (servers s) id = false
-  /\ exists i, find_live (incs s) id = Some i /\ disabled i = false /\ healthy i = true.
+  /\ exists i, find_live (incs s) (cgen s) id = Some i /\ disabled i = false /\ healthy i = true.
 Proof.
-  intros s H. simpl in H. destruct (zlook slot (pickers s)) as [ups|] eqn:Ez; [|destruct H].
-  destruct (pop (incs s) ups choice) as [x|] eqn:Ep; simpl in H; [|destruct H as [H|[]]; discriminate].
+  intros s H. simpl in H. destruct (zlook slot (pickers s)) as [[c ups]|] eqn:Ez; [|destruct H].
+  destruct (pop s c ups choice) as [x|] eqn:Ep; simpl in H; [|destruct H as [H|[]]; discriminate].
   destruct H as [H|[]]. inversion H; subst x.
-  destruct (ready_of_In _ _ _ (pop_In _ _ _ _ Ep)) as [Hin [i [Hf [Hd Hh]]]].
-  destruct (live_enabled s id i (inv_reach rc ms) Hf Hd) as [Hw Hdi].
-  exists ups. repeat split; try assumption. exists i. tauto.
+  destruct (pop_ready_sound rc ms _ _ _ _ Ep) as [Hin [Hex [Hc [Hw [Hdi Hi]]]]].
+  exists c, ups. repeat split; assumption.
+Qed.
+
+Lemma pickone_sound rc ms slot choice id :
+  let s := run_micro rc init ms in
+  In (EPick id) (snd (micro rc s (MPickOne slot choice))) ->
+  exists c, zlook slot (handles s) = Some c /\ cexists s = true /\ c = cgen s
+  /\ wanted (servers s) id = true /\ dis_in (servers s) id = false
+  /\ exists i, find_live (incs s) (cgen s) id = Some i /\ disabled i = false /\ healthy i = true.
+Proof.
+  intros s H. simpl in H. destruct (zlook slot (handles s)) as [c|] eqn:Ez; [|destruct H].
+  destruct (pop s c (live_ids (incs s) c) choice) as [x|] eqn:Ep; simpl in H; [|destruct H as [H|[]]; discriminate].
+  destruct H as [H|[]]. inversion H; subst x.
+  destruct (pop_ready_sound rc ms _ _ _ _ Ep) as [Hin [Hex [Hc [Hw [Hdi Hi]]]]].
+  exists c. repeat split; assumption.
 Qed.
 
 Lemma zlook_zrem_same {A} k (l : list (Z * A)) : zlook k (zrem k l) = None.
@@ -312,11 +420,13 @@ Proof.
   destruct (k =? k') eqn:E; [exact IH|]. simpl. rewrite E. exact IH.
 Qed.
 
-(* MatchAttributes captures the policy's subset, or all current endpoints when the subset is empty *)
+(* MatchAttributes on an existing cluster captures the ClusterInfo object and the policy's subset, or all
+   its current endpoints when the subset is empty *)
 Lemma match_captures rc s p slot :
-  zlook slot (pickers (fst (micro rc s (MMatch p slot)))) = upstreams_of s p.
+  cexists s = true ->
+  zlook slot (pickers (fst (micro rc s (MMatch p slot)))) = option_map (fun ups => (cgen s, ups)) (upstreams_of s p).
 Proof.
-  simpl. destruct (upstreams_of s p) as [ups|]; simpl.
+  intros Hex. simpl. rewrite Hex. simpl. destruct (upstreams_of s p) as [ups|]; simpl.
   - rewrite Z.eqb_refl. reflexivity.
   - apply zlook_zrem_same.
 Qed.
@@ -324,44 +434,64 @@ Qed.
 Lemma pick_sound rc ms :
   let s := run_micro rc init ms in
   (forall p choice id, In (EContact id) (snd (micro rc s (MRequest p choice))) ->
-     wanted (servers s) id = true /\ dis_in (servers s) id = false /\ subset_given s p id
-     /\ exists i, find_live (incs s) id = Some i /\ disabled i = false /\ healthy i = true)
+     cexists s = true /\ wanted (servers s) id = true /\ dis_in (servers s) id = false /\ subset_given s p id
+     /\ exists i, find_live (incs s) (cgen s) id = Some i /\ disabled i = false /\ healthy i = true)
   /\ (forall slot choice id, In (EPick id) (snd (micro rc s (MPop slot choice))) ->
-     exists ups, zlook slot (pickers s) = Some ups /\ In id ups
+     exists c ups, zlook slot (pickers s) = Some (c, ups) /\ In id ups
+     /\ cexists s = true /\ c = cgen s
      /\ wanted (servers s) id = true /\ dis_in (servers s) id = false
-     /\ exists i, find_live (incs s) id = Some i /\ disabled i = false /\ healthy i = true)
-  /\ (forall p slot, zlook slot (pickers (fst (micro rc s (MMatch p slot)))) = upstreams_of s p)
+     /\ exists i, find_live (incs s) (cgen s) id = Some i /\ disabled i = false /\ healthy i = true)
+  /\ (forall p slot, cexists s = true ->
+        zlook slot (pickers (fst (micro rc s (MMatch p slot)))) = option_map (fun ups => (cgen s, ups)) (upstreams_of s p))
   /\ (forall p ups id, upstreams_of s p = Some ups -> In id ups -> subset_given s p id).
 Proof.
   intros s. split; [intros; eapply request_sound; eauto|]. split; [intros; eapply pop_sound; eauto|].
-  split; [intros; apply match_captures|intros; eapply upstreams_subset; eauto].
+  split; [intros; apply match_captures; assumption|intros; eapply upstreams_subset; eauto].
 Qed.
 
 (* no ready endpoint among the upstreams -> error / 503 and nothing contacted *)
-Lemma ready_of_nil l ups :
-  (forall id i, In id ups -> find_live l id = Some i -> is_ready i = false) -> ready_of l ups = [].
+Lemma ready_of_nil s c ups :
+  (forall id i, In id ups -> find_live (incs s) c id = Some i -> negb (stopped s c) && is_ready i = false) ->
+  ready_of s c ups = [].
 Proof.
   intros H. unfold ready_of. induction ups as [|x r IH]; simpl; [reflexivity|].
-  destruct (find_live l x) as [i|] eqn:E.
+  destruct (find_live (incs s) c x) as [i|] eqn:E.
   - rewrite (H x i (or_introl eq_refl) E). apply IH. intros id j Hin. apply H. right; exact Hin.
   - apply IH. intros id j Hin. apply H. right; exact Hin.
 Qed.
 
 Lemma pick_complete rc s :
-  (forall p choice ups, upstreams_of s p = Some ups ->
-     (forall id i, In id ups -> find_live (incs s) id = Some i -> is_ready i = false) ->
+  (forall p choice ups, cexists s = true -> upstreams_of s p = Some ups ->
+     (forall id i, In id ups -> find_live (incs s) (cgen s) id = Some i -> is_ready i = false) ->
      micro rc s (MRequest p choice) = (s, [ENone; E503]))
-  /\ (forall slot choice ups, zlook slot (pickers s) = Some ups ->
-     (forall id i, In id ups -> find_live (incs s) id = Some i -> is_ready i = false) ->
+  /\ (forall slot choice c ups, zlook slot (pickers s) = Some (c, ups) ->
+     (forall id i, In id ups -> find_live (incs s) c id = Some i -> negb (stopped s c) && is_ready i = false) ->
      micro rc s (MPop slot choice) = (s, [ENone])).
 Proof.
   split.
-  - intros p choice ups Hu Hn. simpl. rewrite Hu.
-    destruct (pop (incs s) ups choice) as [x|] eqn:Ep; [|reflexivity].
-    apply pop_In in Ep. rewrite (ready_of_nil _ _ Hn) in Ep. destruct Ep.
-  - intros slot choice ups Hz Hn. simpl. rewrite Hz.
-    destruct (pop (incs s) ups choice) as [x|] eqn:Ep; [|reflexivity].
-    apply pop_In in Ep. rewrite (ready_of_nil _ _ Hn) in Ep. destruct Ep.
+  - intros p choice ups Hex Hu Hn. simpl. rewrite Hex, Hu. simpl.
+    destruct (pop s (cgen s) ups choice) as [x|] eqn:Ep; [|reflexivity].
+    apply pop_In in Ep. rewrite ready_of_nil in Ep; [destruct Ep|].
+    intros id i Hin Hf. rewrite (Hn id i Hin Hf). apply andb_false_r.
+  - intros slot choice c ups Hz Hn. simpl. rewrite Hz.
+    destruct (pop s c ups choice) as [x|] eqn:Ep; [|reflexivity].
+    apply pop_In in Ep. rewrite (ready_of_nil _ _ _ Hn) in Ep. destruct Ep.
+Qed.
+
+(* stale handles: a picker or a ClusterInfo taken from a cluster object that has been stopped since
+   (the cluster was deleted, possibly re-created as a new object) never yields an endpoint, and a request
+   for a cluster that does not exist is answered 503 *)
+Lemma stale_handle rc s :
+  (forall slot choice c ups, zlook slot (pickers s) = Some (c, ups) -> stopped s c = true ->
+     micro rc s (MPop slot choice) = (s, [ENone]))
+  /\ (forall slot choice c, zlook slot (handles s) = Some c -> stopped s c = true ->
+     micro rc s (MPickOne slot choice) = (s, [ENone]))
+  /\ (forall p choice, cexists s = false -> micro rc s (MRequest p choice) = (s, [E503])).
+Proof.
+  split; [|split].
+  - intros slot choice c ups Hz Hs. simpl. rewrite Hz. unfold pop. rewrite (ready_of_stopped _ _ _ Hs). reflexivity.
+  - intros slot choice c Hz Hs. simpl. rewrite Hz. unfold pop. rewrite (ready_of_stopped _ _ _ Hs). reflexivity.
+  - intros p choice Hex. simpl. rewrite Hex. reflexivity.
 Qed.
 
 Lemma on_gen_events k gi f s e :
@@ -370,6 +500,15 @@ Proof.
   unfold on_gen, gen_at. destruct (nth_error (incs s) k) as [i|]; [|intros []].
   destruct (nth_error (gens i) gi) as [g|]; [|intros []].
   destruct (f i g) as [[i' g'] ev] eqn:Ef. simpl. intros H. exists i, g, i', g', ev. tauto.
+Qed.
+
+Lemma worker_events rc b seq i g i' g' ev e :
+  worker_step rc b seq i g = (i', g', ev) -> In e ev -> e = EProbe (iid i).
+Proof.
+  unfold worker_step, worker_take. intros Hf Hin.
+  destruct (wp g); [|inversion Hf; subst; destruct Hin|inversion Hf; subst; destruct Hin].
+  destruct (chanfull i), (gdone g); try destruct b; try destruct rc; simpl in Hf; try destruct (disabled i);
+    inversion Hf; subst; simpl in Hin; intuition.
 Qed.
 
 (* the only step that contacts an upstream is the dispatcher's, and it contacts the endpoint Pop returned *)
@@ -383,27 +522,60 @@ Proof.
   - destruct (on_gen k gi (worker_step rc b (nextseq s)) s) as [s' ev] eqn:E. simpl. intros H.
     assert (H' : In (EContact id) (snd (on_gen k gi (worker_step rc b (nextseq s)) s))) by (rewrite E; exact H).
     destruct (on_gen_events _ _ _ _ _ H') as [i [g [i' [g' [ev' [_ [Hf Hin]]]]]]].
-    unfold worker_step, worker_take in Hf.
-    destruct (wp g); [|inversion Hf; subst; destruct Hin|inversion Hf; subst; destruct Hin].
-    destruct (chanfull i), (gdone g); try destruct b; try destruct rc; simpl in Hf; try destruct (disabled i);
-      inversion Hf; subst; simpl in Hin; intuition discriminate.
+    pose proof (worker_events _ _ _ _ _ _ _ _ _ Hf Hin). discriminate.
   - intros H. destruct (on_gen_events _ _ _ _ _ H) as [i [g [i' [g' [ev [_ [Hf Hin]]]]]]]. inversion Hf; subst. destruct Hin.
-  - destruct (upstreams_of s p); simpl; intuition discriminate.
-  - destruct (zlook slot (pickers s)) as [ups|]; [|intros []].
-    destruct (pop (incs s) ups choice); simpl; intuition discriminate.
-  - destruct (upstreams_of s p) as [ups|]; [|simpl; intuition discriminate].
-    destruct (pop (incs s) ups choice) as [x|]; simpl; [|intuition discriminate].
+  - destruct (cexists s); simpl; [|intuition discriminate]. destruct (upstreams_of s p); simpl; intuition discriminate.
+  - destruct (zlook slot (pickers s)) as [[c ups]|]; [|intros []].
+    destruct (pop s c ups choice); simpl; intuition discriminate.
+  - destruct (cexists s); simpl; [|intuition discriminate].
+    destruct (upstreams_of s p) as [ups|]; [|simpl; intuition discriminate].
+    destruct (pop s (cgen s) ups choice) as [x|]; simpl; [|intuition discriminate].
     intros [H|[H|[]]]; [discriminate|]. inversion H; subst. exists p, choice. split; reflexivity.
+  - destruct (cexists s); simpl; intuition discriminate.
+  - destruct (zlook slot (handles s)) as [c|]; [|intros []].
+    destruct (pop s c (live_ids (incs s) c) choice); simpl; intuition discriminate.
 Qed.
 
-(* over all histories and schedules: whatever is contacted is enabled in the spec in force *)
+(* over all histories and schedules: whatever is contacted is enabled in the spec in force of a cluster that exists *)
 Lemma disabled_no_traffic rc ms m id :
   let s := run_micro rc init ms in
   In (EContact id) (snd (micro rc s m)) -> spec_enabled s id = true.
 Proof.
   intros s H. destruct (contacted_is_picked rc s m id H) as [p [choice [-> _]]].
-  destruct (request_sound rc ms p choice id H) as [Hw [Hd _]].
-  unfold spec_enabled. subst s. cbv zeta in Hw, Hd. rewrite Hw, Hd. reflexivity.
+  destruct (request_sound rc ms p choice id H) as [Hex [Hw [Hd _]]].
+  unfold spec_enabled. subst s. cbv zeta in Hex, Hw, Hd. rewrite Hex, Hw, Hd. reflexivity.
+Qed.
+
+(* over all histories and schedules, stale handles included: every endpoint that Pop / PickOne / the
+   dispatcher returns at some moment is, at that moment, in the server list of a cluster that exists, and
+   enabled there *)
+Lemma routes_only_current rc ms m id :
+  let s := run_micro rc init ms in
+  In (EPick id) (snd (micro rc s m)) -> spec_enabled s id = true.
+Proof.
+  intros s H. unfold spec_enabled.
+  destruct m; simpl in H; try (destruct H; fail).
+  - destruct (on_gen_events _ _ _ _ _ H) as [i [g [i' [g' [ev [_ [Hf Hin]]]]]]]. inversion Hf; subst. destruct Hin.
+  - destruct (on_gen_events _ _ _ _ _ H) as [i [g [i' [g' [ev [_ [Hf Hin]]]]]]]. inversion Hf; subst. destruct Hin.
+  - destruct (on_gen k gi (worker_step rc b (nextseq s)) s) as [s' ev] eqn:E. simpl in H.
+    assert (H' : In (EPick id) (snd (on_gen k gi (worker_step rc b (nextseq s)) s))) by (rewrite E; exact H).
+    destruct (on_gen_events _ _ _ _ _ H') as [i [g [i' [g' [ev' [_ [Hf Hin]]]]]]].
+    pose proof (worker_events _ _ _ _ _ _ _ _ _ Hf Hin). discriminate.
+  - destruct (on_gen_events _ _ _ _ _ H) as [i [g [i' [g' [ev [_ [Hf Hin]]]]]]]. inversion Hf; subst. destruct Hin.
+  - destruct (cexists s); simpl in H; [|intuition discriminate]. destruct (upstreams_of s p); simpl in H; intuition discriminate.
+  - assert (H' : In (EPick id) (snd (micro rc s (MPop slot choice)))) by exact H.
+    destruct (pop_sound rc ms slot choice id H') as [c [ups [_ [_ [Hex [_ [Hw [Hd _]]]]]]]].
+    subst s. cbv zeta in *. rewrite Hex, Hw, Hd. reflexivity.
+  - destruct (cexists s) eqn:Ex; simpl in H; [|intuition discriminate].
+    destruct (upstreams_of s p) as [ups|]; [|simpl in H; intuition discriminate].
+    destruct (pop s (cgen s) ups choice) as [x|] eqn:Ep; simpl in H; [|intuition discriminate].
+    destruct H as [H|[H|[]]]; [|discriminate]. inversion H; subst x.
+    destruct (pop_ready_sound rc ms _ _ _ _ Ep) as [_ [Hex [_ [Hw [Hd _]]]]].
+    subst s. cbv zeta in *. rewrite ?Hex. rewrite Hw, Hd. reflexivity.
+  - destruct (cexists s); simpl in H; intuition discriminate.
+  - assert (H' : In (EPick id) (snd (micro rc s (MPickOne slot choice)))) by exact H.
+    destruct (pickone_sound rc ms slot choice id H') as [c [_ [Hex [_ [Hw [Hd _]]]]]].
+    subst s. cbv zeta in *. rewrite Hex, Hw, Hd. reflexivity.
 Qed.
 
 (* ---------- probes ---------- *)
@@ -416,9 +588,13 @@ Proof.
   destruct (nth_error (incs s) k) as [i0|] eqn:Ei; [|discriminate].
   destruct (nth_error (gens i0) gi) as [g0|] eqn:Eg; [|discriminate]. inversion Hg; subst i0 g0.
   pose proof (inv_reach rc ms) as Hinv. fold s in Hinv. unfold inv in Hinv. rewrite Forall_forall in Hinv.
-  destruct (Hinv i (nth_error_In _ _ Ei)) as [H1 [H2 _]].
-  destruct (H2 g (nth_error_In _ _ Eg) Hd) as [Hl [Hdis _]]. destruct (H1 Hl) as [Hw He].
-  unfold spec_enabled. rewrite Hw. rewrite <- He, Hdis. split; reflexivity.
+  destruct (Hinv i (nth_error_In _ _ Ei)) as [_ [Hc Hn]].
+  destruct (cur s i) eqn:Ecur.
+  - destruct (Hc eq_refl) as [H1 [H2 _]].
+    destruct (H2 g (nth_error_In _ _ Eg) Hd) as [Hl [Hdis _]]. destruct (H1 Hl) as [Hw He].
+    unfold cur in Ecur. apply andb_prop in Ecur. destruct Ecur as [Hex _].
+    unfold spec_enabled. rewrite Hex, Hw. rewrite <- He, Hdis. split; reflexivity.
+  - rewrite (Hn eq_refl g (nth_error_In _ _ Eg)) in Hd. discriminate.
 Qed.
 
 (* every probe of an endpoint that is not enabled comes from a cancelled goroutine whose select, with
@@ -439,23 +615,25 @@ Proof.
     unfold worker_step, worker_take in Hf.
     destruct (wp g); [|inversion Hf; subst; destruct Hin|inversion Hf; subst; destruct Hin].
     destruct (chanfull i) eqn:Ec, (gdone g) eqn:Ed.
-    + (* racy select *)
-      destruct b; [|inversion Hf; subst; destruct Hin].
+    + destruct b; [|inversion Hf; subst; destruct Hin].
       destruct rc; simpl in Hf; [inversion Hf; subst; destruct Hin|].
       inversion Hf; subst. destruct Hin as [Hin|[]]. inversion Hin; subst.
       right. split; [reflexivity|]. exists k, gi, i, g. tauto.
-    + (* live context *)
-      destruct (live_context_enabled rc ms k gi i g Hg Ed) as [Hen Hdis]. fold s in Hen.
+    + destruct (live_context_enabled rc ms k gi i g Hg Ed) as [Hen Hdis]. fold s in Hen.
       destruct rc; simpl in Hf; rewrite ?Hdis in Hf; inversion Hf; subst; destruct Hin as [Hin|[]];
         inversion Hin; subst; left; exact Hen.
     + inversion Hf; subst; destruct Hin.
     + inversion Hf; subst; destruct Hin.
   - destruct (on_gen_events _ _ _ _ _ H) as [i [g [i' [g' [ev [_ [Hf Hin]]]]]]]. inversion Hf; subst. destruct Hin.
-  - destruct (upstreams_of s p); simpl in H; intuition discriminate.
-  - destruct (zlook slot (pickers s)) as [ups|]; [|destruct H].
-    destruct (pop (incs s) ups choice); simpl in H; intuition discriminate.
-  - destruct (upstreams_of s p) as [ups|]; [|simpl in H; intuition discriminate].
-    destruct (pop (incs s) ups choice); simpl in H; intuition discriminate.
+  - destruct (cexists s); simpl in H; [|intuition discriminate]. destruct (upstreams_of s p); simpl in H; intuition discriminate.
+  - destruct (zlook slot (pickers s)) as [[c ups]|]; [|destruct H].
+    destruct (pop s c ups choice); simpl in H; intuition discriminate.
+  - destruct (cexists s); simpl in H; [|intuition discriminate].
+    destruct (upstreams_of s p) as [ups|]; [|simpl in H; intuition discriminate].
+    destruct (pop s (cgen s) ups choice); simpl in H; intuition discriminate.
+  - destruct (cexists s); simpl in H; intuition discriminate.
+  - destruct (zlook slot (handles s)) as [c|]; [|destruct H].
+    destruct (pop s c (live_ids (incs s) c) choice); simpl in H; intuition discriminate.
 Qed.
 
 Lemma disabled_no_new_probe rc ms :
